@@ -525,7 +525,6 @@ Proof.
         -- intros k p e H. unfold relaunch in H.
            destruct (find_spec sc k) as [r0|] eqn:Hf; [|discriminate].
            destruct (d_con (dk s) k) as [p0|] eqn:Hc; [|discriminate].
-           destruct (Nat.ltb p0 (length (r_stages r0))); [|discriminate].
            inversion H; subst. split; congruence.
         -- apply (j_keys s I).
         -- apply (j_res s I).
